@@ -102,10 +102,22 @@ def run_verus(unit, repo, outdir, vacuity=False, rlimit=None):
     are isolated - contract kept as a stub, body dropped, reported NO-VERDICT - and the rest of the unit is verified."""
     stub_out = set()
     consts = set()
-    for _round in range(5):
-        res = run_verus_once(unit, repo, outdir, vacuity, rlimit, stub_out, sorted(consts))
+    helpers = set()
+    for _round in range(7):
+        res = run_verus_once(unit, repo, outdir, vacuity, rlimit, stub_out, sorted(consts), sorted(helpers))
         if not res['compile_error']:
             break
+        # a helper function the template does not know (a change extracted lines into it): inline it mechanically and retry
+        newh = set()
+        for e in res['errors']:
+            for rx in (r'no method named `(\w+)` found', r'cannot find function `(\w+)` in this scope',
+                       r'no function or associated item named `(\w+)` found'):
+                m = re.search(rx, e['msg'])
+                if m and m.group(1) not in helpers:
+                    newh.add(m.group(1))
+        if newh:
+            helpers |= newh
+            continue
         # a named constant the change introduced: import its definition mechanically and retry
         newc = set()
         for e in res['errors']:
@@ -133,8 +145,9 @@ def run_verus(unit, repo, outdir, vacuity=False, rlimit=None):
     return res
 
 
-def run_verus_once(unit, repo, outdir, vacuity=False, rlimit=None, stub_out=None, consts=None):
-    info = extract.build(unit, repo, os.path.join(VERIF, 'units'), outdir, vacuity=vacuity, stub_out=stub_out, extra_consts=consts)
+def run_verus_once(unit, repo, outdir, vacuity=False, rlimit=None, stub_out=None, consts=None, helpers=None):
+    info = extract.build(unit, repo, os.path.join(VERIF, 'units'), outdir, vacuity=vacuity, stub_out=stub_out, extra_consts=consts,
+                         inline_helpers=helpers)
     gen = info['generated']
     cmd = ['verus', gen, '--output-json', '--time-expanded', '--multiple-errors', '20']
     if rlimit:
